@@ -24,6 +24,10 @@ type Intent struct {
 	Headers []string `json:"headers,omitempty"` // author-set CORS-unsafe request-header names
 	Creds   bool     `json:"creds,omitempty"`   // credentials mode "include"
 	PNA     bool     `json:"pna,omitempty"`     // target is in a more private address space
+	// SameHost: the server is reached under the very host[:port] of the page's
+	// origin (other scheme, or a fronting proxy); still cross-origin for the
+	// browser when schemes differ, and in any case nothing the verdict may depend on
+	SameHost bool `json:"same_host,omitempty"`
 }
 
 // Alteration is one in-flight change of the ACRH field (fault F5).
@@ -145,6 +149,7 @@ func genIntent(r *R, c Cfg) Intent {
 	}
 	in.Creds = r.P(0.35)
 	in.PNA = r.P(0.25)
+	in.SameHost = r.P(0.15)
 	return in
 }
 
@@ -424,7 +429,7 @@ func browserFetch(srv *mwServer, in Intent, alts []Alteration, c *Ctx, trace *[]
 	needPreflight := !isSafelistedMethod(method) || len(names) > 0 || in.PNA
 	if needPreflight {
 		c.hit("preflight_needed")
-		q := Req{Method: "OPTIONS", H: []HV{{hOrigin, []string{in.Origin}}, {hACRM, []string{method}}}}
+		q := Req{Method: "OPTIONS", H: []HV{{hOrigin, []string{in.Origin}}, {hACRM, []string{method}}}, Host: hostOf(in)}
 		if len(names) > 0 {
 			lines := []string{strings.Join(names, ",")}
 			if len(alts) > 0 {
@@ -474,7 +479,7 @@ func browserFetch(srv *mwServer, in Intent, alts []Alteration, c *Ctx, trace *[]
 	} else {
 		c.hit("no_preflight_needed")
 	}
-	q := Req{Method: method, H: []HV{{hOrigin, []string{in.Origin}}}}
+	q := Req{Method: method, H: []HV{{hOrigin, []string{in.Origin}}}, Host: hostOf(in)}
 	for _, n := range in.Headers {
 		q.H = append(q.H, HV{canonical(n), []string{"v"}})
 	}
@@ -487,6 +492,16 @@ func browserFetch(srv *mwServer, in Intent, alts []Alteration, c *Ctx, trace *[]
 		return verdict{false, "actual", "CORS check: " + why}
 	}
 	return verdict{true, "", ""}
+}
+
+func hostOf(in Intent) string {
+	if !in.SameHost {
+		return ""
+	}
+	if i := strings.Index(in.Origin, "://"); i >= 0 {
+		return in.Origin[i+3:]
+	}
+	return ""
 }
 
 func canonical(n string) string {
